@@ -16,6 +16,8 @@ static const mc_tok_t CA_EMAIL[] = { MC_TOK("a"), MC_TOK("."), MC_TOK("@"), MC_T
 static const mc_tok_t CA_LOCAL[] = { MC_TOK("a"), MC_TOK("."), MC_TOK("\""), MC_TOK("\\"), MC_TOK(" "), MC_TOK("\t"), MC_TOK("\r"), MC_TOK("\n"), MC_TOK("\x01"), MC_TOK("\x7f"), MC_TOK("("), MC_TOK("#"),
                                      MC_TOK("\x80"), MC_TOK("\xd0\x96"), MC_TOK("\xe9\xa6\x99"), MC_TOK("\xc3"), MC_TOK("\xf0\x9f\x98\x80") };
 #define NCA_LOCAL 17
+/* the inside of a quoted string, deeper: all strings of <= 6 (7) tokens over 7 classes between two quotes */
+static const mc_tok_t CA_QIN[] = { MC_TOK("a"), MC_TOK("\\"), MC_TOK("\""), MC_TOK(" "), MC_TOK("\t"), MC_TOK("\r\n"), MC_TOK("\xd0\x96") };
 static const mc_tok_t CA_DOM[] = { MC_TOK("a"), MC_TOK("Z"), MC_TOK("1"), MC_TOK("-"), MC_TOK("."), MC_TOK("_"), MC_TOK("!"), MC_TOK("\x80"), MC_TOK("\xd0\xb6") };
 static const mc_tok_t CA_LIT[] = { MC_TOK("1"), MC_TOK("0"), MC_TOK("a"), MC_TOK("g"), MC_TOK(":"), MC_TOK("."), MC_TOK("IPv6:"), MC_TOK("]"), MC_TOK("[") };
 
@@ -41,24 +43,25 @@ static int corpus_load(void) {
     corpus_loaded = 1; return 0;
 }
 
-enum { CP_CROSS, CP_EMAIL, CP_LOCAL, CP_DOMAIN, CP_LITERAL, CP_TLD, CP_IDN, CP_BYTES, CP_LONG, CP_LONGIDN, CP_ALTDOT, CP_LABELLEN, CP_MAXLIT, CP_LPXDOM, CP_WHOLEDOM, CP_SCALARS, CP_N };
+enum { CP_CROSS, CP_EMAIL, CP_LOCAL, CP_DOMAIN, CP_LITERAL, CP_TLD, CP_IDN, CP_BYTES, CP_LONG, CP_LONGIDN, CP_ALTDOT, CP_LABELLEN, CP_MAXLIT, CP_LPXDOM, CP_WHOLEDOM, CP_DEPTH, CP_SCALARS, CP_N };
 static const char *corpus_name(int i) {
     static const char *n[] = {
         "cross: all strings over {a 1 . - @ [ ] : SP ( 0x01 #}",
         "email: all strings over {a . @ [ ] \" \\ SP 1 : - U+0416}",
-        "local: all local parts over 17 classes x 4 domains, and inside a quoted string",
+        "local: all local parts over 17 classes x 4 domains, and inside a quoted string; quoted-string bodies of <= 6 tokens over {a \\ \" SP HT CRLF U+0416}",
         "domain: all domains over {a Z 1 - . _ ! 0x80 U+0436} after x@",
         "literal: all bracket contents over {1 0 a g : . IPv6: ] [} + structured v4/v6",
         "tld: every table row x prefixes, reserved names x prefixes x label lengths, near misses, single labels",
         "idn: 1-2 symbol labels of 8 scripts x suffixes, IDN TLD rows in U- and A-form",
         "bytes: every byte 0x01-0xFF at every position of 24 templates",
-        "long: lengths 0..300, 1 KiB, 64 KiB of 12 fillers with 0-1 deviations",
+        "long: lengths 0..300, 1 KiB, 2 KiB, 64 KiB of 24 fillers with 0-1 deviations and inside 5 complete-address wrappers",
         "longidn: U-label domains of 1-7 labels x 8-56 letters, shared 255-byte prefixes back to back, soft-hyphen padding to 3 KiB",
         "altdot: reserved names and table rows spelled with U+3002/U+FF0E/U+FF61 dots and fullwidth letters",
         "labellen: labels of 58-70 characters with '_' / '-' tails in every position",
         "maxlit: maximal-length valid address literals followed by junk inside the brackets",
         "lpxdom: 40 local-part shapes (quoted colons, dots, brackets, '@', digits, tags) x 36 domain parts (literals of both families, host names)",
         "wholedom: every code point of U+0080-2FFF, U+FE00-FFFF, U+1BCA0-1BCAF, U+E0000-E01FF (thorough: every scalar) as the whole domain, doubled, as both labels, rooted, as last label",
+        "depth: 24 suffixes (reserved names, reserved look-alikes, table rows of 6 classes, unlisted) behind every sequence of 0-4 labels over {a, test, example, com, xn--p1ai, invalid}",
         "scalars: every non-ASCII Unicode scalar value as an atom character, quoted (alone, after and before a space) and in a domain label" };
     return n[i];
 }
@@ -82,12 +85,13 @@ static long corpus_shards(int i) {
     case CP_TLD: return RT_PUNY.n + 8 * 64 + 1;
     case CP_IDN: return 35 + 1;
     case CP_BYTES: return 24;
-    case CP_LONG: return 12;
+    case CP_LONG: return 24;
     case CP_LONGIDN: return 7 + 2;
     case CP_ALTDOT: return 8 + 1;
     case CP_LABELLEN: return 13;
     case CP_MAXLIT: return 6;
     case CP_LPXDOM: return 40;
+    case CP_DEPTH: return 24;
     case CP_WHOLEDOM: return CORPUS_DEEP ? 0x110000 / 0x400 : 15;
     case CP_SCALARS: return 0x110000 / 0x1000;
     }
@@ -116,7 +120,8 @@ static void corpus_run(int ph, long shard, emit_fn emit, void *arg) {
         c_enum(CA_LOCAL, NCA_LOCAL, corpus_N(ph) - 1, 2, shard, "", "@[192.0.2.1]", emit, arg);
         c_enum(CA_LOCAL, NCA_LOCAL, corpus_N(ph) - 1, 2, shard, "", "@bad..dom", emit, arg);
         c_enum(CA_LOCAL, NCA_LOCAL, corpus_N(ph) - 1, 2, shard, "", "@\xd0\xbf.\xd1\x80\xd1\x84", emit, arg);
-        c_enum(CA_LOCAL, NCA_LOCAL, corpus_N(ph) - 1, 2, shard, "\"a", "\"@ok.com", emit, arg);     /* the same strings as the inside of a quoted string that already holds a character */
+        c_enum(CA_LOCAL, NCA_LOCAL, corpus_N(ph) - 1, 2, shard, "\"a", "\"@ok.com", emit, arg);
+        if (shard <= mc_ipow(7, 2)) { c_enum(CA_QIN, 7, CORPUS_DEEP ? 7 : 6, 2, shard, "\"", "\"@ok.com", emit, arg); c_enum(CA_QIN, 7, CORPUS_DEEP ? 6 : 5, 2, shard, "x.\"", "\".y@ok.com", emit, arg); }     /* the same strings as the inside of a quoted string that already holds a character */
         break;
     case CP_DOMAIN:
         c_enum(CA_DOM, 9, corpus_N(ph), 2, shard, "x@", "", emit, arg);
@@ -192,7 +197,10 @@ static void corpus_run(int ph, long shard, emit_fn emit, void *arg) {
             if (CORPUS_DEEP || b % 16 == 1 || b >= 0x7e || b < 0x30) for (int b2 = 1; b2 < 256; b2 += (CORPUS_DEEP ? 1 : 5)) { s[pre + 1] = (unsigned char)b2; memcpy(s + pre + 2, h + 3, post); emit(s, pre + 2 + post, arg); } }
     } break;
     case CP_LONG: {
-        static const char *const F[12] = { "a", ".", "\"", "\\", "-", "1", ":", "@", "[", "\xd0\x96", "\xff", "a." };
+        static const char *const F[24] = { "a", ".", "\"", "\\", "-", "1", ":", "@", "[", "\xd0\x96", "\xff", "a.",
+            "0.", "1.", "0", "0:", "1:", "::", " ", "\r\n ", "\\\"", "a-", "xn--", "\xc2\xad" };
+        /* every filler also as the body of a complete address: inside literal brackets (untagged and tagged), inside a quoted local part, as a host name, as a local part */
+        static const char *const WR[5][2] = { { "x@[", "]" }, { "x@[IPv6:", "]" }, { "\"", "\"@b.com" }, { "x@", ".com" }, { "", "@b.com" } };
         static unsigned char big[70000];
         const char *f = F[shard]; size_t fl = strlen(f);
         static const int lens[] = { 0, 1, 2, 3, 4, 5, 6, 7, 8, 9, 10, 15, 16, 17, 31, 32, 33, 62, 63, 64, 65, 66, 100, 127, 128, 129, 200, 252, 253, 254, 255, 256, 257, 300, 1024, 2048, 65536 };
@@ -205,6 +213,14 @@ static void corpus_run(int ph, long shard, emit_fn emit, void *arg) {
             for (size_t i = 0; i < reps; i++) { if (where == 1 && i == reps / 2) { memcpy(big + l, dvs, dl); l += dl; } memcpy(big + l, f, fl); l += fl; }
             if (where == 2) { memcpy(big + l, dvs, dl); l += dl; }
             big[l] = 0; emit(big, l, arg);
+        }
+        for (unsigned li = 0; li < sizeof lens / sizeof lens[0]; li++) for (int w = 0; w < 5; w++) {
+            size_t reps = (size_t)lens[li], a = strlen(WR[w][0]), b = strlen(WR[w][1]), l = 0;
+            if (reps * fl + a + b + 1 > sizeof big) continue;
+            memcpy(big, WR[w][0], a); l = a; for (size_t i = 0; i < reps; i++) { memcpy(big + l, f, fl); l += fl; }
+            /* a complete last element where the filler leaves a separator dangling: 0.0.0.0 / 0:0:...:0 / a.a.a */
+            if (fl == 2 && (f[1] == '.' || f[1] == ':') && reps) { big[l++] = (unsigned char)f[0]; }
+            memcpy(big + l, WR[w][1], b); l += b; big[l] = 0; emit(big, l, arg);
         }
     } break;
     case CP_LONGIDN: {
@@ -297,6 +313,24 @@ static void corpus_run(int ph, long shard, emit_fn emit, void *arg) {
             u[l] = 0;
             c_emit_str(emit, arg, "x@%s", u); c_emit_str(emit, arg, "x@%s%s", u, u); c_emit_str(emit, arg, "x@%s.%s", u, u); c_emit_str(emit, arg, "x@%s.", u); c_emit_str(emit, arg, "x@a.%s", u);
         }
+    } break;
+    case CP_DEPTH: {       /* label DEPTH: what stands in front of the last one or two labels, and how many labels there are, must not matter */
+        static const char *const SUF[24] = { "test", "example", "invalid", "localhost", "onion", "example.com", "example.net", "example.org", "examples.com", "example.co", "test.com", "localhost.org",
+            "com", "org", "arpa", "museum", "uk", "xn--p1ai", "aaa", "zzzzq", "co.uk", "com.example", "net.test", "example.example" };
+        static const char *const LB[6] = { "a", "test", "example", "com", "xn--p1ai", "invalid" };
+        const char *sf = SUF[shard]; char d[300];
+        c_emit_str(emit, arg, "x@%s", sf);
+        for (int a = 0; a < 6; a++) { c_emit_str(emit, arg, "x@%s.%s", LB[a], sf);
+            for (int b = 0; b < 6; b++) { c_emit_str(emit, arg, "x@%s.%s.%s", LB[b], LB[a], sf);
+                for (int c = 0; c < 6; c++) { c_emit_str(emit, arg, "x@%s.%s.%s.%s", LB[c], LB[b], LB[a], sf);
+                    for (int e = 0; e < 6; e++) c_emit_str(emit, arg, "x@%s.%s.%s.%s.%s", LB[e], LB[c], LB[b], LB[a], sf); } } }
+        /* look-alikes of the reserved names: every proper prefix and proper suffix of the reserved label in its place (ex.com, ample.org, tes, nion ...) */
+        if (shard < 8) { const char *dot = strchr(sf, '.'); size_t fl = dot ? (size_t)(dot - sf) : strlen(sf); const char *rest = dot ? dot : "";
+            for (size_t k = 1; k < fl; k++) { char pfx[32], sfx[32]; memcpy(pfx, sf, k); pfx[k] = 0; memcpy(sfx, sf + fl - k, k); sfx[k] = 0;
+                c_emit_str(emit, arg, "x@%s%s", pfx, rest); c_emit_str(emit, arg, "x@a.%s%s", pfx, rest); c_emit_str(emit, arg, "x@a.b.%s%s", pfx, rest);
+                c_emit_str(emit, arg, "x@%s%s", sfx, rest); c_emit_str(emit, arg, "x@a.%s%s", sfx, rest); c_emit_str(emit, arg, "x@a.b.%s%s", sfx, rest); } }
+        /* many one-letter labels in front: 5..130 labels */
+        for (int n = 5; n <= 130; n++) { int l = 0; for (int i = 0; i < n && l < 252; i++) { d[l++] = (char)(i % 2 ? 0x62 : 0x61); d[l++] = 0x2e; } d[l] = 0; if ((size_t)l + strlen(sf) <= 253) c_emit_str(emit, arg, "x@%s%s", d, sf); }
     } break;
     case CP_LPXDOM: {      /* what the domain-part parsers search for (':', '.', ']', '[', '@', digits, the IPv6 tag) placed inside the local part */
         static const char *const LP[40] = { "x", "a.b", "a1", "1", "1.2.3.4", "\"a:b\"", "\":\"", "\"::\"", "\"a.b\"", "\"1.2.3.4\"", "\"]\"", "\"[\"", "\"[1.2.3.4]\"", "\"@\"", "\"a@b\"",
